@@ -115,7 +115,7 @@ class C16(Campaign):
     stub_components = ["SimFile/SimDisk (files)", "analytic calculator", "TapeCriteria verdict tape"]
 
     def budget(self, tier):
-        return {"runs": 48, "wall_s": 150} if tier == "quick" else {"runs": 1600, "wall_s": 1500}
+        return {"runs": 640, "wall_s": 170} if tier == "quick" else {"runs": 60000, "wall_s": 1500}
 
     # -- generation --------------------------------------------------------------------
     def generate(self, rnd: random.Random, tier: str, index: int) -> dict:
